@@ -204,7 +204,18 @@ def main():
             end = "done"
         except Exception as e:  # noqa: BLE001 - the exception class IS the observation
             end = classify(e)
-        return f"{kind} crc={crc} recs={','.join(recs) if recs else '-'} end={end}", end
+        # implementation-only probe (not modelled): validate_crc() AFTER iteration must not crash the
+        # interpreter or end in an internal error either (a compressed batch has replaced its buffer by
+        # then); a clean result or an ordinary exception adds nothing to the compared text
+        post = ""
+        if want_crc:
+            try:
+                b.validate_crc()
+            except Exception as e:  # noqa: BLE001
+                c = classify(e)
+                if c.startswith("fault:") or c.startswith("other:"):
+                    post = " post-crc=" + c
+        return f"{kind} crc={crc} recs={','.join(recs) if recs else '-'} end={end}{post}", end
 
     def run(entry, want_crc, magic, pos, buf):
         if entry in ("cyD", "pyD", "cyL", "pyL"):
